@@ -30,7 +30,8 @@ def run_all(args):
     known = load_known().get("known", [])
     for prop, fn in sorted(registry().items()):
         try:
-            rules = fn(A, "quick")
+            from hsa.rules_common import rules_of
+            rules = rules_of(A, prop)
             problems = A.problems()
             if problems:
                 errs[prop] = problems[0]
